@@ -45,7 +45,7 @@ def run(ctx: Ctx) -> None:
     ctx.add('C10.R1', 'IdManager.draw_types', ok, dt, 'type of a name = drawType of the expression registered under that name' if ok else f'draw_types: {det[:120]}', det)
     E = prog.cls('expressions.base_expressions', 'Expression')
     dd = E.methods['dict_of_draw_types']
-    ok = body_is(dd.body, '_D = self.dict_of_elementary_expression(the_type=TypeOfElementaryExpression.DRAWS)\nreturn {_N: _E.drawType for _N, _E in _D.items()}') is not None
+    ok = body_is(dd.body, '_D = self.dict_of_elementary_expression(TypeOfElementaryExpression.DRAWS)\nreturn {_N: _E.drawType for _N, _E in _D.items()}') is not None
     ctx.add('C10.R1', 'Expression.dict_of_draw_types', ok, dd, 'name -> drawType of the same expression' if ok else 'dict_of_draw_types changed', 'ddt')
     D = prog.cls('database', 'Database')
     gd = D.methods['generate_draws']
